@@ -173,7 +173,7 @@ func parseInstant(p Prop) (t int64, isDate bool, err error) {
 	switch len(p.Value) {
 	case 8:
 		tt, err := time.Parse("20060102", p.Value)
-		return tt.Unix(), true, err
+		return tt.Unix() - dateShift, true, err
 	case 16:
 		tt, err := time.Parse("20060102T150405Z", p.Value)
 		return tt.Unix(), false, err
@@ -437,6 +437,30 @@ func evalNested(f CompF, parent Comp) (V, error) {
 
 // RefMatch: the top-level filter is evaluated against the calendar object
 // itself (scope: the object; the only candidate is its root component).
+// dateShift: seconds by which midnight of a DATE value (which has no zone of its own) lies before UTC midnight.
+var dateShift int64
+
+// RefMatchZ evaluates under both readings of zone-less DATE values - UTC, and the zone in which the caller hands
+// over the query's instants (the library reads them in the Location of the range start; neither the statement nor
+// RFC 4791 section 9.9 fixes the zone of a floating value) - and is decisive only where they agree.
+func RefMatchZ(f CompF, root Comp, qzone int) (V, error) {
+	dateShift = 0
+	v0, err := RefMatch(f, root)
+	if err != nil || qzone == 0 {
+		return v0, err
+	}
+	dateShift = int64(qzone)
+	v1, err := RefMatch(f, root)
+	dateShift = 0
+	if err != nil {
+		return v0, err
+	}
+	if v0 != v1 {
+		return E, nil
+	}
+	return v0, nil
+}
+
 func RefMatch(f CompF, root Comp) (V, error) {
 	if root.Name != f.Name {
 		return fromBool(f.IND), nil
